@@ -42,7 +42,7 @@ def make_case(ast, extra_feats=()):
 def gen(R, tier):
     lo, hi = R.choice([(1, 3), (2, 6), (4, 10)])
     style = R.choice(['nodes', 'units', 'units', 'mixed', 'annotated', 'ringy'])
-    kw = dict(max_nodes=hi, p_branch=0.45, p_ring=0.1, p_sym=0.35, max_depth=3, max_branches=2)
+    kw = dict(max_nodes=hi, min_nodes=lo, p_branch=0.45, p_ring=0.1, p_sym=0.35, max_depth=3, max_branches=2)
     pn, pb = 0.3, 0.5
     if style == 'nodes':
         kw.update(p_branch=0.2)
